@@ -91,6 +91,12 @@ func implC01(line string) string {
 	if len(f) == 3 && f[0] == "fn" {
 		return implFn(f[2])
 	}
+	if len(f) == 6 && f[0] == "bind" {
+		return implBind(f)
+	}
+	if len(f) == 3 && f[0] == "amap" {
+		return implAmap(f)
+	}
 	if len(f) != 4 {
 		return "bad-op"
 	}
@@ -110,6 +116,7 @@ func implC01(line string) string {
 
 func genC01(c *h.Ctx) {
 	genFn(c)
+	genBind(c)
 	n := c.N(3000, 120000)
 	for i := 0; i < n; i++ {
 		size := 8 + c.Rng.Intn(c.N(30, 80))
